@@ -69,6 +69,11 @@ impl Entry {
     fn bcf_api(self) -> Api {
         if matches!(self, Entry::BcfLazyId | Entry::BcfLazyFormat) { Api::Lazy } else { Api::Eager }
     }
+    /// Deepest nesting that must decode to the payload (deeper inputs may be rejected). BCF: the length that
+    /// follows a 15-form descriptor is a typed scalar integer, so only the plain form (depth 1) has to decode.
+    pub fn must_decode_depth(self) -> usize {
+        if self.is_bcf() { 1 } else { 3 }
+    }
     /// Entries whose result is compared with a payload (the others are judged on survival only).
     pub fn has_payload(self) -> bool {
         !matches!(self, Entry::VcfHeaderAngles | Entry::GffParentChain)
@@ -566,6 +571,14 @@ fn decode(c: &NestCase, targets: &Targets, bytes: &[u8]) -> Out {
             Out::Ok
         } else if log.last().map(|l| vnd::is_end_eof(l)).unwrap_or(false) {
             let i = log.iter().zip(expected.iter()).position(|(a, b)| a != b).unwrap_or(log.len().min(expected.len()));
+            // lazy reader: the record is returned and the accessor of the re-coded field reports the error
+            if api == Api::Lazy {
+                if let (Some(a), Some(b)) = (log.get(i), expected.get(i)) {
+                    if a.contains("Err(kind=") && !b.contains("Err(kind=") {
+                        return Out::Err(a.chars().take(200).collect());
+                    }
+                }
+            }
             Out::Wrong(format!("log differs at item {i}: {}", log.get(i).map(|s| s.chars().take(200).collect::<String>()).unwrap_or_else(|| "<missing>".into())))
         } else {
             Out::Err(log.last().cloned().unwrap_or_default())
